@@ -1,16 +1,708 @@
 package main
 
-import "fmt"
+// Replay of solver models against the real code.
+//
+// When an obligation of a function with "simple" inputs fails with a model, the engine asks the
+// solver for the values of the function's inputs in that model (parameters, and the fields and
+// byte contents reachable from them), writes an in-package Go test that builds those inputs,
+// calls the REAL function and observes the outcome, and runs it with `go test -overlay` (nothing
+// is written into the repository). The violation is confirmed when
+//   - the obligation is a safety one (index, slice, make, div, nilmap, typeassert, nopanic) and
+//     the call panics, or
+//   - the obligation is a postcondition whose clause can be translated to Go and evaluates to
+//     false on the state after the call.
+// Anything else (ghost state in the clause, interface- or function-valued inputs that the model
+// needs non-nil, closures, loop invariants and call-site obligations, which speak about states
+// inside the function) is not replayable: the violation is then reported with the solver's
+// output and the words no-failing-input-found.
 
-// Replay of solver models against the real code (go test -overlay). Templates
-// are per obligation family; where none applies the violation is reported
-// with the solver output and no-failing-input-found.
+import (
+	"bytes"
+	"encoding/json"
+	"fmt"
+	"go/ast"
+	"go/printer"
+	"go/token"
+	"go/types"
+	"os"
+	"os/exec"
+	"path/filepath"
+	"strconv"
+	"strings"
+
+	"golang.org/x/tools/go/ssa"
+)
+
+const replayMaxElems = 48
+
+// replayInput: one assignable input location of the function under verification.
+type replayInput struct {
+	Path  string     // Go expression: "n", "dec.head", "dec.buf"
+	Typ   types.Type // its Go type
+	Kind  string     // scalar | bool | bytes | string | array | ptr | iface
+	Terms []Term     // scalar: value; bool: value; bytes: arr off len cap; string: arr off len; ptr: ref; iface: typ
+	Elems []Term     // bytes/string/array: first replayMaxElems element terms
+	N     int        // array length
+}
+
+// collectReplayInputs walks the parameters of fn (entry state st) and records what a test must
+// set up. ok=false when the function cannot be replayed at all (closure).
+func (vc *VC) collectReplayInputs(fr *Frame, st *State) {
+	fn := fr.fn
+	if fn.Parent() != nil || len(fn.FreeVars) > 0 {
+		return
+	}
+	vc.replayOK = true
+	for _, p := range fn.Params {
+		vc.replayWalk(st, p.Name(), p.Type(), fr.vals[p], 0)
+	}
+}
+
+func (vc *VC) replayWalk(st *State, path string, t types.Type, v Value, depth int) {
+	switch u := t.Underlying().(type) {
+	case *types.Basic:
+		switch {
+		case u.Info()&types.IsInteger != 0:
+			vc.replayIn = append(vc.replayIn, replayInput{Path: path, Typ: t, Kind: "scalar", Terms: []Term{v.C[0]}})
+		case u.Info()&types.IsBoolean != 0:
+			vc.replayIn = append(vc.replayIn, replayInput{Path: path, Typ: t, Kind: "bool", Terms: []Term{v.C[0]}})
+		case u.Info()&types.IsString != 0:
+			in := replayInput{Path: path, Typ: t, Kind: "string", Terms: []Term{v.C[0], v.C[1], v.C[2]}}
+			m := vc.get(st, "S.byte", "(Array Int (Array Int Int))")
+			for k := 0; k < replayMaxElems; k++ {
+				in.Elems = append(in.Elems, sSel(sSel(m, v.C[0]), iAdd(v.C[1], sInt(int64(k)))))
+			}
+			vc.replayIn = append(vc.replayIn, in)
+		default:
+			vc.replayIn = append(vc.replayIn, replayInput{Path: path, Typ: t, Kind: "unsupported"})
+		}
+	case *types.Slice:
+		eb, ok := u.Elem().Underlying().(*types.Basic)
+		if !ok || eb.Info()&types.IsInteger == 0 {
+			// other element types: only nil/empty can be built
+			vc.replayIn = append(vc.replayIn, replayInput{Path: path, Typ: t, Kind: "slice-other", Terms: []Term{v.C[0], v.C[1], v.C[2], v.C[3]}})
+			return
+		}
+		in := replayInput{Path: path, Typ: t, Kind: "bytes", Terms: []Term{v.C[0], v.C[1], v.C[2], v.C[3]}}
+		for k := 0; k < replayMaxElems; k++ {
+			p := vc.elemPtr(v.C[0], iAdd(v.C[1], sInt(int64(k))), u.Elem())
+			in.Elems = append(in.Elems, vc.load(st, p, u.Elem()).C[0])
+		}
+		vc.replayIn = append(vc.replayIn, in)
+	case *types.Array:
+		eb, ok := u.Elem().Underlying().(*types.Basic)
+		if !ok || eb.Info()&types.IsInteger == 0 || u.Len() > replayMaxElems {
+			vc.replayIn = append(vc.replayIn, replayInput{Path: path, Typ: t, Kind: "unsupported"})
+			return
+		}
+		in := replayInput{Path: path, Typ: t, Kind: "array", N: int(u.Len())}
+		for k := 0; k < int(u.Len()); k++ {
+			in.Elems = append(in.Elems, sSel(v.C[0], sInt(int64(k))))
+		}
+		vc.replayIn = append(vc.replayIn, in)
+	case *types.Pointer:
+		s, isS := isStruct(u.Elem())
+		if !isS || depth >= 2 {
+			vc.replayIn = append(vc.replayIn, replayInput{Path: path, Typ: t, Kind: "ptr-other", Terms: []Term{v.C[0]}})
+			return
+		}
+		vc.replayIn = append(vc.replayIn, replayInput{Path: path, Typ: t, Kind: "ptr", Terms: []Term{v.C[0]}})
+		for i := 0; i < s.NumFields(); i++ {
+			f := s.Field(i)
+			if f.Name() == "_" {
+				continue
+			}
+			fp := vc.fieldPtr(v, u.Elem(), i)
+			if _, emb := isStruct(f.Type()); emb {
+				// embedded/nested struct value: walk its scalar fields one level
+				vc.replayStructFields(st, path+"."+f.Name(), f.Type(), fp, depth+1)
+				continue
+			}
+			fv := vc.load(st, fp, f.Type())
+			vc.replayWalk(st, path+"."+f.Name(), f.Type(), fv, depth+1)
+		}
+	case *types.Struct:
+		vc.replayIn = append(vc.replayIn, replayInput{Path: path, Typ: t, Kind: "unsupported"})
+	case *types.Interface, *types.Signature, *types.Map, *types.Chan:
+		vc.replayIn = append(vc.replayIn, replayInput{Path: path, Typ: t, Kind: "iface", Terms: []Term{v.C[0]}})
+	default:
+		vc.replayIn = append(vc.replayIn, replayInput{Path: path, Typ: t, Kind: "unsupported"})
+	}
+}
+
+func (vc *VC) replayStructFields(st *State, path string, t types.Type, p Value, depth int) {
+	s, _ := isStruct(t)
+	if depth > 2 {
+		return
+	}
+	for i := 0; i < s.NumFields(); i++ {
+		f := s.Field(i)
+		if f.Name() == "_" {
+			continue
+		}
+		fp := vc.fieldPtr(p, t, i)
+		if _, emb := isStruct(f.Type()); emb {
+			// e.g. sync.Mutex inside: leave zero
+			continue
+		}
+		fv := vc.load(st, fp, f.Type())
+		vc.replayWalk(st, path+"."+f.Name(), f.Type(), fv, depth+1)
+	}
+}
+
+// ---------------------------------------------------------------------
+
+func panicKind(k string) bool {
+	switch k {
+	case "index", "slice", "make", "div", "nilmap", "typeassert", "nopanic":
+		return true
+	}
+	return false
+}
 
 func tryReplay(e *Engine, verif string, o *Obligation, rf *ReplayFile) *ReplayOutcome {
-	return nil
+	vc := o.vc
+	if vc == nil || !vc.replayOK || len(vc.replayIn) == 0 {
+		return nil
+	}
+	if !panicKind(o.Kind) && o.Kind != "post" {
+		return nil
+	}
+	fn := vc.root
+	out := &ReplayOutcome{Template: "call the real function on the model's inputs"}
+	// 1. a model in which every input is buildable: interfaces/functions/maps nil, other pointers nil,
+	//    slices short
+	var pref []string
+	for _, in := range vc.replayIn {
+		switch in.Kind {
+		case "unsupported":
+			out.Output = "input " + in.Path + " has a type the replay cannot build"
+			return out
+		case "iface", "ptr-other":
+			pref = append(pref, sEq(in.Terms[0], "0"))
+		case "slice-other":
+			pref = append(pref, sEq(in.Terms[2], "0"))
+		case "bytes":
+			pref = append(pref, "(<= "+in.Terms[2]+" "+strconv.Itoa(replayMaxElems)+")", "(<= "+in.Terms[3]+" 4096)")
+		case "string":
+			pref = append(pref, "(<= "+in.Terms[2]+" "+strconv.Itoa(replayMaxElems)+")")
+		}
+	}
+	var want []Term
+	var wantSort []string
+	add := func(t Term, sort string) int {
+		want = append(want, t)
+		wantSort = append(wantSort, sort)
+		return len(want) - 1
+	}
+	type slot struct{ terms, elems []int }
+	slots := make([]slot, len(vc.replayIn))
+	for i, in := range vc.replayIn {
+		for _, t := range in.Terms {
+			s := "Int"
+			if in.Kind == "bool" {
+				s = "Bool"
+			}
+			slots[i].terms = append(slots[i].terms, add(t, s))
+		}
+		for _, t := range in.Elems {
+			slots[i].elems = append(slots[i].elems, add(t, "Int"))
+		}
+	}
+	base := vc.script(o, true)
+	cut := strings.LastIndex(base, "(check-sat)")
+	if cut < 0 {
+		return nil
+	}
+	var sb strings.Builder
+	sb.WriteString(base[:cut])
+	for _, p := range pref {
+		sb.WriteString("(assert " + p + ")\n")
+	}
+	sb.WriteString("(check-sat)\n(get-value (")
+	for _, t := range want {
+		sb.WriteString(t + " ")
+	}
+	sb.WriteString("))\n")
+	full := sb.String()
+	r := SolverResult{Status: "unknown"}
+	if lite, ok := stripQuantified(full); ok {
+		// candidate inputs from the query without its quantified assumptions; the generated test
+		// re-checks the function's preconditions on the concrete input, so a candidate that breaks
+		// one of the dropped assumptions is discarded there, not reported
+		r = solve(lite, 10, false)
+	}
+	if r.Status != "sat" {
+		r = solve(full, 20, false)
+	}
+	if r.Status != "sat" {
+		out.Output = "no model with buildable inputs (interfaces nil, short slices): solver says " + r.Status
+		return out
+	}
+	vals := parseGetValue(r.Output, len(want))
+	if vals == nil {
+		out.Output = "could not read the model values"
+		return out
+	}
+	// 2. the test
+	src, why := genReplayTest(e, vc, fn, o, vals, func(i int) ([]string, []string) {
+		var a, b []string
+		for _, k := range slots[i].terms {
+			a = append(a, vals[k])
+		}
+		for _, k := range slots[i].elems {
+			b = append(b, vals[k])
+		}
+		return a, b
+	})
+	if src == "" {
+		out.Output = why
+		return out
+	}
+	dir := filepath.Join(verif, "replays", rf.Property)
+	os.MkdirAll(dir, 0o755)
+	tf := filepath.Join(dir, sanitize(o.Name)+"-"+scriptHash(o.Name)[:8]+"_test.go.txt")
+	os.WriteFile(tf, []byte(src), 0o644)
+	out.TestFile = tf
+	pkgDir := strings.TrimPrefix(fn.Pkg.Pkg.Path(), modPath)
+	pkgDir = strings.TrimPrefix(pkgDir, "/")
+	out.Package = pkgDir
+	out.Kind = o.Kind
+	ran, confirmed, text := runReplayTest(e.repo, pkgDir, tf, o.Kind)
+	out.Ran, out.Confirmed, out.Output = ran, confirmed, truncate(text, 3000)
+	return out
+}
+
+func parseGetValue(out string, n int) []string {
+	i := strings.Index(out, "((")
+	if i < 0 {
+		return nil
+	}
+	toks := tokenize(out[i:])
+	// one s-expression starting at p: returns the index after it
+	skip := func(p int) int {
+		if p >= len(toks) {
+			return p
+		}
+		if toks[p] != "(" {
+			return p + 1
+		}
+		d := 0
+		for q := p; q < len(toks); q++ {
+			if toks[q] == "(" {
+				d++
+			} else if toks[q] == ")" {
+				d--
+				if d == 0 {
+					return q + 1
+				}
+			}
+		}
+		return len(toks)
+	}
+	vals := make([]string, 0, n)
+	p := 1 // after the outer "("
+	for p < len(toks) && len(vals) < n && toks[p] == "(" {
+		t0 := p + 1
+		t1 := skip(t0) // term
+		v1 := skip(t1) // value
+		vals = append(vals, strings.Join(toks[t1:v1], " "))
+		p = v1 + 1 // ")"
+	}
+	if len(vals) != n {
+		return nil
+	}
+	for k, v := range vals {
+		vals[k] = smtIntToGo(v)
+	}
+	return vals
+}
+
+func smtIntToGo(v string) string {
+	v = strings.TrimSpace(v)
+	if strings.HasPrefix(v, "(") {
+		t := strings.Fields(strings.Trim(v, "() "))
+		if len(t) == 2 && t[0] == "-" {
+			return "-" + t[1]
+		}
+		return "?"
+	}
+	return v
+}
+
+func genReplayTest(e *Engine, vc *VC, fn *ssa.Function, o *Obligation, vals []string, get func(i int) ([]string, []string)) (string, string) {
+	qual := func(p *types.Package) string {
+		if p == fn.Pkg.Pkg {
+			return ""
+		}
+		return p.Name()
+	}
+	imports := map[string]bool{}
+	typeStr := func(t types.Type) string {
+		return types.TypeString(t, func(p *types.Package) string {
+			if p == fn.Pkg.Pkg {
+				return ""
+			}
+			imports[p.Path()] = true
+			return p.Name()
+		})
+	}
+	_ = qual
+	var setup strings.Builder
+	declared := map[string]bool{}
+	nilPtr := map[string]bool{}
+	for i, in := range vc.replayIn {
+		tv, ev := get(i)
+		root := in.Path
+		if j := strings.IndexByte(root, '.'); j >= 0 {
+			root = root[:j]
+		}
+		// skip fields of a nil pointer
+		skip := false
+		for np := range nilPtr {
+			if strings.HasPrefix(in.Path, np+".") {
+				skip = true
+			}
+		}
+		if skip {
+			continue
+		}
+		isParam := !strings.Contains(in.Path, ".")
+		lhs := in.Path
+		assign := func(rhs string) {
+			if isParam && !declared[lhs] {
+				declared[lhs] = true
+				fmt.Fprintf(&setup, "\tvar %s %s = %s\n", lhs, typeStr(in.Typ), rhs)
+			} else {
+				fmt.Fprintf(&setup, "\t%s = %s\n", lhs, rhs)
+			}
+		}
+		switch in.Kind {
+		case "scalar":
+			if tv[0] == "?" {
+				return "", "model value of " + in.Path + " not readable"
+			}
+			assign(fmt.Sprintf("%s(%s)", typeStr(in.Typ), tv[0]))
+		case "bool":
+			assign(tv[0])
+		case "bytes":
+			if tv[0] == "0" {
+				assign("nil")
+				break
+			}
+			ln, _ := strconv.Atoi(tv[2])
+			cp, _ := strconv.Atoi(tv[3])
+			if ln < 0 || ln > replayMaxElems || cp < ln || cp > 4096 {
+				return "", fmt.Sprintf("slice %s has len %s cap %s in the model", in.Path, tv[2], tv[3])
+			}
+			et := typeStr(in.Typ.Underlying().(*types.Slice).Elem())
+			var el []string
+			for k := 0; k < ln; k++ {
+				el = append(el, ev[k])
+			}
+			assign(fmt.Sprintf("append(make(%s, 0, %d), []%s{%s}...)", typeStr(in.Typ), cp, et, strings.Join(el, ", ")))
+		case "slice-other":
+			assign("nil")
+		case "string":
+			ln, _ := strconv.Atoi(tv[2])
+			if ln < 0 || ln > replayMaxElems {
+				return "", "string too long in the model"
+			}
+			var el []string
+			for k := 0; k < ln; k++ {
+				el = append(el, ev[k])
+			}
+			assign(fmt.Sprintf("%s(string([]byte{%s}))", typeStr(in.Typ), strings.Join(el, ", ")))
+		case "array":
+			assign(fmt.Sprintf("%s{%s}", typeStr(in.Typ), strings.Join(ev, ", ")))
+		case "ptr":
+			if tv[0] == "0" {
+				nilPtr[in.Path] = true
+				assign("nil")
+			} else {
+				el := in.Typ.Underlying().(*types.Pointer).Elem()
+				assign("new(" + typeStr(el) + ")")
+			}
+		case "iface", "ptr-other":
+			assign("nil")
+		}
+	}
+	// call
+	sig := fn.Signature
+	var args []string
+	start := 0
+	recv := ""
+	if sig.Recv() != nil {
+		recv = fn.Params[0].Name()
+		start = 1
+	}
+	for _, p := range fn.Params[start:] {
+		a := p.Name()
+		if sig.Variadic() && p == fn.Params[len(fn.Params)-1] {
+			a += "..."
+		}
+		args = append(args, a)
+	}
+	var resVars []string
+	var resDecl strings.Builder
+	resName := map[string]string{}
+	for i := 0; i < sig.Results().Len(); i++ {
+		rv := fmt.Sprintf("_r%d", i)
+		resVars = append(resVars, rv)
+		fmt.Fprintf(&resDecl, "\tvar %s %s\n", rv, typeStr(sig.Results().At(i).Type()))
+		resName[fmt.Sprintf("result%d", i)] = rv
+		if i == 0 {
+			resName["result"] = rv
+		}
+		if n := sig.Results().At(i).Name(); n != "" && n != "_" {
+			resName[n] = rv
+		}
+	}
+	if vc.contract != nil && len(vc.contract.Results) > 0 {
+		delete(resName, "result")
+		for i, n := range vc.contract.Results {
+			if i < len(resVars) {
+				resName[n] = resVars[i]
+			}
+		}
+	}
+	call := fn.Name() + "(" + strings.Join(args, ", ") + ")"
+	if recv != "" {
+		call = recv + "." + call
+	}
+	if len(resVars) > 0 {
+		call = strings.Join(resVars, ", ") + " = " + call
+	}
+	// clause
+	clauseGo := ""
+	var olds []string
+	if o.Kind == "post" {
+		cg, os_, err := translateClause(o.Src, resName)
+		if err != "" {
+			return "", "the clause is not translatable to Go (" + err + ")"
+		}
+		clauseGo, olds = cg, os_
+	}
+	var pres []string
+	if vc.contract != nil {
+		for _, rq := range vc.contract.Requires {
+			pg, _, perr := translateClauseLazy(rq.Text, map[string]string{})
+			if perr != "" {
+				return "", "a precondition is not translatable to Go (" + perr + ")"
+			}
+			pres = append(pres, pg)
+		}
+	}
+	var sb strings.Builder
+	sb.WriteString("package " + fn.Pkg.Pkg.Name() + "\n\n")
+	sb.WriteString("// Generated by govc: replay of a solver model against the real code.\n")
+	sb.WriteString("// obligation: " + o.Name + "\n")
+	if o.Src != "" {
+		sb.WriteString("// clause: " + strings.ReplaceAll(o.Src, "\n", " ") + "\n")
+	}
+	sb.WriteString("\nimport (\n\t\"fmt\"\n\t\"testing\"\n")
+	for p := range imports {
+		sb.WriteString("\t" + strconv.Quote(p) + "\n")
+	}
+	sb.WriteString(")\n\n")
+	sb.WriteString("func _govcForall(lo, hi int, f func(int) bool) bool {\n\tfor i := lo; i < hi; i++ {\n\t\tif !f(i) {\n\t\t\treturn false\n\t\t}\n\t}\n\treturn true\n}\n\n")
+	sb.WriteString("func _govcUnknown() bool { panic(\"govc: not checkable in Go\") }\n\n")
+	sb.WriteString("func _govcIsDigit(x interface{}) bool { s := fmt.Sprint(x); return len(s) == 2 && s >= \"48\" && s <= \"57\" }\n\n")
+	sb.WriteString("func TestGovcReplay(t *testing.T) {\n")
+	sb.WriteString(setup.String())
+	sb.WriteString(resDecl.String())
+	for _, pg := range pres {
+		sb.WriteString("\tif !func() (ok bool) {\n\t\tdefer func() {\n\t\t\tif recover() != nil {\n\t\t\t\tok = false\n\t\t\t}\n\t\t}()\n\t\treturn " + pg + "\n\t}() {\n\t\tfmt.Println(\"GOVC-REPLAY pre=false (the candidate input does not meet the function's precondition)\")\n\t\treturn\n\t}\n")
+	}
+	for k, oe := range olds {
+		fmt.Fprintf(&sb, "\t_old%d := %s\n", k, oe)
+	}
+	sb.WriteString("\tvar _panicked interface{}\n")
+	sb.WriteString("\tfunc() {\n\t\tdefer func() { _panicked = recover() }()\n\t\t" + call + "\n\t}()\n")
+	sb.WriteString("\tif _panicked != nil {\n\t\tfmt.Printf(\"GOVC-REPLAY panic: %v\\n\", _panicked)\n\t\treturn\n\t}\n")
+	sb.WriteString("\tfmt.Println(\"GOVC-REPLAY returned\")\n")
+	if clauseGo != "" {
+		sb.WriteString("\tfmt.Printf(\"GOVC-REPLAY clause=%v\\n\", " + clauseGo + ")\n")
+	}
+	for _, rv := range resVars {
+		sb.WriteString("\t_ = " + rv + "\n")
+	}
+	for k := range olds {
+		fmt.Fprintf(&sb, "\t_ = _old%d\n", k)
+	}
+	sb.WriteString("}\n")
+	return sb.String(), ""
+}
+
+// translateClause turns a contract clause into a Go boolean expression over the test's variables.
+// old(e) becomes a snapshot taken before the call. Returns the expression, the snapshot
+// expressions, and a reason when the clause uses something Go cannot evaluate (ghost state, the
+// memory model's own functions).
+func translateClauseLazy(text string, resName map[string]string) (string, []string, string) {
+	lazyUnknown = true
+	defer func() { lazyUnknown = false }()
+	return translateClause(text, resName)
+}
+
+var lazyUnknown bool
+
+func translateClause(text string, resName map[string]string) (string, []string, string) {
+	e, err := parseContractExpr(text)
+	if err != nil {
+		return "", nil, err.Error()
+	}
+	var olds []string
+	bad := ""
+	fset := token.NewFileSet()
+	show := func(n ast.Node) string {
+		var b bytes.Buffer
+		printer.Fprint(&b, fset, n)
+		return b.String()
+	}
+	var tr func(e ast.Expr, inOld bool) string
+	tr = func(e ast.Expr, inOld bool) string {
+		switch x := e.(type) {
+		case *ast.ParenExpr:
+			return "(" + tr(x.X, inOld) + ")"
+		case *ast.BasicLit:
+			return x.Value
+		case *ast.Ident:
+			if x.Name == "ghost" {
+				bad = "ghost state"
+			}
+			if r, ok := resName[x.Name]; ok {
+				if inOld {
+					bad = "result inside old()"
+				}
+				return r
+			}
+			return x.Name
+		case *ast.SelectorExpr:
+			if id, ok := x.X.(*ast.Ident); ok && id.Name == "ghost" {
+				bad = "ghost state"
+				return "false"
+			}
+			return tr(x.X, inOld) + "." + x.Sel.Name
+		case *ast.IndexExpr:
+			return tr(x.X, inOld) + "[" + tr(x.Index, inOld) + "]"
+		case *ast.UnaryExpr:
+			return x.Op.String() + tr(x.X, inOld)
+		case *ast.BinaryExpr:
+			return "(" + tr(x.X, inOld) + " " + x.Op.String() + " " + tr(x.Y, inOld) + ")"
+		case *ast.CallExpr:
+			id, ok := x.Fun.(*ast.Ident)
+			if !ok {
+				bad = "call " + show(x.Fun)
+				return "false"
+			}
+			switch id.Name {
+			case "implies":
+				a := tr(x.Args[0], inOld)
+				if lazyUnknown && bad == "" {
+					b := tr(x.Args[1], inOld)
+					if bad != "" {
+						bad = ""
+						b = "_govcUnknown()"
+					}
+					return "(!(" + a + ") || (" + b + "))"
+				}
+				return "(!(" + a + ") || (" + tr(x.Args[1], inOld) + "))"
+			case "iff":
+				return "((" + tr(x.Args[0], inOld) + ") == (" + tr(x.Args[1], inOld) + "))"
+			case "len", "cap":
+				return id.Name + "(" + tr(x.Args[0], inOld) + ")"
+			case "old":
+				if inOld {
+					return tr(x.Args[0], true)
+				}
+				olds = append(olds, tr(x.Args[0], true))
+				return fmt.Sprintf("_old%d", len(olds)-1)
+			case "forall":
+				if len(x.Args) != 4 {
+					bad = "unbounded quantifier"
+					return "false"
+				}
+				v := x.Args[0].(*ast.Ident).Name
+				return "_govcForall(int(" + tr(x.Args[1], inOld) + "), int(" + tr(x.Args[2], inOld) + "), func(" + v + " int) bool { return " + tr(x.Args[3], inOld) + " })"
+			case "isdigit":
+				return "_govcIsDigit(" + tr(x.Args[0], inOld) + ")"
+			}
+			bad = "spec function " + id.Name
+			return "false"
+		}
+		bad = fmt.Sprintf("expression %T", e)
+		return "false"
+	}
+	s := tr(e, false)
+	if bad != "" {
+		return "", nil, bad
+	}
+	return s, olds, ""
+}
+
+// runReplayTest runs the generated test in the package directory through an overlay.
+func runReplayTest(repo, pkgDir, testFile, kind string) (ran, confirmed bool, text string) {
+	tmp, err := os.MkdirTemp("", "govc-replay")
+	if err != nil {
+		return false, false, err.Error()
+	}
+	defer os.RemoveAll(tmp)
+	ov := map[string]map[string]string{"Replace": {filepath.Join(repo, pkgDir, "zz_govc_replay_test.go"): testFile}}
+	b, _ := json.Marshal(ov)
+	ovf := filepath.Join(tmp, "ov.json")
+	os.WriteFile(ovf, b, 0o644)
+	cmd := exec.Command("bash", "-c", "ulimit -v 6000000; exec go test -overlay "+ovf+" -v -vet=off -count=1 -timeout 60s -run '^TestGovcReplay$' ./"+pkgDir+"/")
+	cmd.Dir = repo
+	cmd.Env = append(os.Environ(), "GOFLAGS=-mod=mod", "GOPROXY=off", "GOSUMDB=off", "GOTOOLCHAIN=local")
+	var buf bytes.Buffer
+	cmd.Stdout = &buf
+	cmd.Stderr = &buf
+	cmd.Run()
+	text = buf.String()
+	if !strings.Contains(text, "GOVC-REPLAY") {
+		return false, false, text
+	}
+	if strings.Contains(text, "GOVC-REPLAY pre=false") {
+		return true, false, text
+	}
+	ran = true
+	panicked := strings.Contains(text, "GOVC-REPLAY panic:")
+	if panicKind(kind) {
+		confirmed = panicked
+	} else {
+		confirmed = !panicked && strings.Contains(text, "GOVC-REPLAY clause=false")
+	}
+	return
 }
 
 func runReplay(repo, verif, path string) int {
-	fmt.Println("replay file:", path)
+	b, err := os.ReadFile(path)
+	if err != nil {
+		fmt.Println("cannot read", path, err)
+		return 2
+	}
+	var rf ReplayFile
+	if err := json.Unmarshal(b, &rf); err != nil {
+		fmt.Println("not a replay file:", err)
+		return 2
+	}
+	fmt.Println("obligation:", rf.Obligation)
+	fmt.Println("position:  ", rf.Pos)
+	if rf.Clause != "" {
+		fmt.Println("clause:    ", rf.Clause)
+	}
+	fmt.Println("status:    ", rf.Status, "("+rf.Solver+")")
+	if rf.Replay == nil || rf.Replay.TestFile == "" {
+		fmt.Println("no replayable input was found for this obligation; solver output:")
+		fmt.Println(rf.SolverOut)
+		return 1
+	}
+	ran, confirmed, text := runReplayTest(repo, rf.Replay.Package, rf.Replay.TestFile, rf.Replay.Kind)
+	fmt.Println(text)
+	if ran && confirmed {
+		fmt.Println("REPLAY: the real code shows the violation on the model's input")
+		return 1
+	}
+	fmt.Println("REPLAY: the violation did not reproduce on the current tree")
 	return 0
 }
